@@ -339,6 +339,23 @@ def fam_consts(n, k):
     return src, "%s:%d" % (s, ctx_sum(k))
 
 
+def fam_fconsts(n, k):
+    # n distinct number constants in a function chunk, and nothing but numbers after them in that chunk:
+    # the last constants added are numeric, so the pool limit is met by add_number itself
+    body = "".join("t += %d.5;\n" % i for i in range(n))
+    src = ctx(k) + "function f() { let t = 0;\n" + body + "return t; }\n'' + f() + ':' + (%s)" % ctx_check(k)
+    total = sum(i + 0.5 for i in range(n))
+    s = str(int(total)) if total == int(total) else repr(total)
+    return src, "%s:%d" % (s, ctx_sum(k))
+
+
+def fam_sconsts(n, k):
+    # n distinct string constants in a function chunk, then numbers
+    body = "".join("t = 's%d';\n" % i for i in range(n))
+    src = ctx(k) + "function f() { let t = '';\n" + body + "return t + 1000.5 + 2000.5; }\n'' + f() + ':' + (%s)" % ctx_check(k)
+    return src, "%s1000.52000.5:%d" % ("s%d" % (n - 1) if n else "", ctx_sum(k))
+
+
 def fam_jumps(n, k):
     # a loop body of n statements: jump distances grow with n
     src = ctx(k) + "let t = 0; for (let i = 0; i < 2; i++) { if (i === 5) { continue; }\n" + "t += 1;\n" * n + "}\n'' + t + ':' + (%s)" % ctx_check(k)
@@ -370,7 +387,7 @@ WINDOW_FAMILIES = {
 }
 OTHER_FAMILIES = {
     "params": fam_params, "object": fam_object, "switch": fam_switch, "stmts": fam_stmts,
-    "decls": fam_decls, "consts": fam_consts, "jumps": fam_jumps,
+    "decls": fam_decls, "consts": fam_consts, "fconsts": fam_fconsts, "sconsts": fam_sconsts, "jumps": fam_jumps,
 }
 LIMIT = re.compile(r"Too many")
 
@@ -379,8 +396,9 @@ def sizes(tier, fam):
     dense = list(range(0, 40)) + list(range(100, 140, 3)) + list(range(236, 262)) + [300, 511, 512, 513, 600]
     if tier == "thorough":
         dense = list(range(0, 601))
-    if fam in ("consts",):
-        return [0, 1, 2, 100, 255, 256, 257, 1000] + ([65533, 65534, 65535, 65536, 65537, 70000] if tier == "thorough" else [65534, 65536])
+    if fam in ("consts", "fconsts", "sconsts"):
+        return [0, 1, 2, 100, 255, 256, 257, 1000] + ([65530, 65531, 65532, 65533, 65534, 65535, 65536, 65537, 70000] if tier == "thorough"
+                                                    else [65532, 65534, 65535, 65536])
     if fam in ("jumps", "decls"):
         return [0, 1, 2, 50, 120, 127, 128, 129, 255, 256, 257, 600] + ([20000, 70000] if (tier == "thorough" and fam == "jumps") else [])
     if fam in ("stmts",):
@@ -392,7 +410,7 @@ def sizes(tier, fam):
 
 def known_class(fam, n, status, msg):
     """Classes of KNOWN_FINDINGS.json this (family, size, refusal) falls into."""
-    if status == "limit" and "registers" in msg and fam in ("stmts", "decls", "jumps", "consts", "object", "switch"):
+    if status == "limit" and "registers" in msg and fam in ("stmts", "decls", "jumps", "consts", "fconsts", "sconsts", "object", "switch"):
         return "F2-registers-never-released"
     if status == "limit" and "constants" in msg:
         return "F3-constant-pool-cumulative"
